@@ -622,6 +622,31 @@ def check_described_names(ctx):
         ctx.undecided(rule, fi, 'Field._describe_yourself', 'no (name, self) entry found in what it returns', fi.node.lineno, clause='b')
 
 
+def check_class_tables_are_the_builders(ctx, rule='R13-hooks'):
+    """Round 8.  get_fields() / get_sync_*_methods() return lists that belong to the class: built
+    by its own builder and read from it.  A list parked in the class configuration (__bisturi__ /
+    bisturi_conf) lives in a dict the user wrote and may share between classes (LITTLE =
+    {'endianness': 'little'} used by ten classes): the class defined last replaces it for all"""
+    repo = ctx.repo
+    pb = repo.cls('PacketClassBuilder')
+    n = 0
+    bad = False
+    for mname, fi in pb.methods.items():
+        if not mname.startswith('add_'):
+            continue
+        for inner in ast.walk(fi.node):
+            if isinstance(inner, (ast.FunctionDef, ast.Lambda)) and inner is not fi.node:
+                rets = [r.value for r in ast.walk(inner) if isinstance(r, ast.Return) and r.value is not None] if isinstance(inner, ast.FunctionDef) else [inner.body]
+                for r in rets:
+                    n += 1
+                    t = canon(r)
+                    if '__bisturi__' in t or 'bisturi_conf' in t:
+                        bad = True
+                        ctx.violation(rule, fi, '%s: return %s' % (mname, t[:80]), 'the class reads its table from the configuration dict, an object the user wrote and may share between classes: every class that shares it gets the table of the class defined last (its fields / sync hooks run for the others)', getattr(r, 'lineno', fi.node.lineno), clause='c', witness=True)
+    if n and not bad:
+        ctx.holds(rule, pb.methods.get('add_sync_descriptor_class_methods') or (pb.file, 'PacketClassBuilder'), 'class accessors return the builder\'s own lists', 'no table of a class lives in the user\'s configuration dict', 0, clause='c')
+
+
 def check(ctx):
     check_described_names(ctx)
     check_auto(ctx)
@@ -629,6 +654,9 @@ def check(ctx):
     check_slots(ctx)
     check_generated_sync(ctx)
     check_constructor(ctx)
+    from ..model import check_init_writes_own_keyword_only
+    check_init_writes_own_keyword_only(ctx, 'R13-constructor', clause='d')
+    check_class_tables_are_the_builders(ctx)
     # Round 5: the collected sync hooks are the hooks of their own fields -- a wrapper made in the
     # collecting loop that reads the loop's variables late makes every hook sync the last field
     from .c08 import check_late_binding
